@@ -20,7 +20,7 @@ def run_one(sid: str) -> dict:
     meta = json.loads((d / "meta.json").read_text())
     checks = meta.get("checks_to_run") or [meta["breaks_property"]]
     r = subprocess.run([sys.executable, str(VERIF / "tools" / "try_patch.py"), str(d / "patch.diff"), *checks],
-                       capture_output=True, text=True, cwd=str(VERIF))
+                       capture_output=True, text=True, cwd=str(VERIF), env=dict(__import__("os").environ, TRY_PATCH_NO_RESTORE="1"))
     out = r.stdout
     if "PATCH DOES NOT APPLY" in out:
         meta["last_run"] = {"when": time.strftime("%Y-%m-%d %H:%M"), "error": "patch does not apply to the current tree"}
@@ -93,14 +93,53 @@ def main():
     ap = argparse.ArgumentParser()
     ap.add_argument("--only", default=None)
     ap.add_argument("--table-only", action="store_true")
+    ap.add_argument("--jobs", type=int, default=1, help="seeds run concurrently (each in its own throw-away worktree)")
+    ap.add_argument("--since", default=None, help="skip seeds whose last_run.when is >= this 'YYYY-MM-DD HH:MM'")
     a = ap.parse_args()
     ids = sorted(p.name for p in SEEDED.iterdir() if (p / "patch.diff").exists())
     if a.only:
         ids = [i for i in ids if i in a.only.split(",")]
+    if a.since:
+        def fresh(sid):
+            m = json.loads((SEEDED / sid / "meta.json").read_text())
+            return ((m.get("last_run") or {}).get("when") or "") >= a.since and "error" not in (m.get("last_run") or {})
+        ids = [i for i in ids if not fresh(i)]
     if not a.table_only:
-        for sid in ids:
-            m = run_one(sid)
-            print(sid, "->", m.get("detected_by_quick_tier") or m.get("last_run"), flush=True)
+        # several seeds at a time, but never two that run the SAME check: a check regenerates its property's
+        # tables (lean/PtGen) from the tree it is pointed at, and two trees must not write one table file at once
+        import threading
+        busy: set = set()
+        cv = threading.Condition()
+        todo = list(ids)
+
+        def checks_of(sid):
+            m = json.loads((SEEDED / sid / "meta.json").read_text())
+            return set(m.get("checks_to_run") or [m["breaks_property"]])
+
+        def worker():
+            while True:
+                with cv:
+                    while True:
+                        if not todo:
+                            return
+                        pick = next((x for x in todo if not (checks_of(x) & busy)), None)
+                        if pick is not None:
+                            break
+                        cv.wait(timeout=5)
+                    todo.remove(pick)
+                    busy.update(checks_of(pick))
+                try:
+                    m = run_one(pick)
+                    print(pick, "->", m.get("detected_by_quick_tier") or m.get("last_run"), flush=True)
+                finally:
+                    with cv:
+                        busy.difference_update(checks_of(pick))
+                        cv.notify_all()
+        ths = [threading.Thread(target=worker) for _ in range(max(1, a.jobs))]
+        for t in ths:
+            t.start()
+        for t in ths:
+            t.join()
     write_table()
     # try_patch restores lean/PtGen; make sure
     subprocess.call(["git", "-C", str(VERIF), "checkout", "--", "lean/PtGen"])
